@@ -77,7 +77,9 @@ func c08Lint(e *Env) {
 					dropped++
 					t := fmt.Sprintf("t%d", k+1-dropped)
 					if r.Chance(1, 3) {
-						emit("-- dropping " + t)
+						// (the comment quotes the statement it announces: a position is where the statement IS,
+						// not where its text first occurs)
+						emit("-- next: DROP TABLE " + t + "; (cleanup)")
 					}
 					// the statement need not start its line: indentation, a block comment or another statement in
 					// front of it on the same line
